@@ -41,7 +41,11 @@ PURE_STR_METHODS = {
     "isascii", "isdigit", "isalpha", "isalnum", "isspace", "isupper", "islower",
     "lower", "upper", "startswith", "endswith", "strip", "lstrip", "rstrip",
 }  # fmt: skip
-PURE_BUILTINS = {"len": len, "ord": ord, "chr": chr, "min": min, "max": max,
+class Rec(dict):
+    """A record with attribute access, used to fold predicates over small abstract objects."""
+
+
+PURE_BUILTINS = {"len": len, "ord": ord, "chr": chr, "min": min, "max": max, "all": all, "any": any,
                  "frozenset": frozenset, "set": set, "tuple": tuple, "list": list,
                  "dict": dict, "str": str, "int": int, "bool": bool, "sorted": sorted,
                  "range": range, "enumerate": enumerate, "zip": zip, "isinstance": None}  # fmt: skip
@@ -179,6 +183,8 @@ class Evaluator:
                 return base.value
             if isinstance(base, EnumMember) and e.attr == "name":
                 return base.name
+            if isinstance(base, Rec) and e.attr in base:
+                return base[e.attr]
             raise NotStatic(f"attribute {unparse(e)}")
         if isinstance(e, ast.UnaryOp):
             v = self.eval(e.operand)
